@@ -48,6 +48,13 @@ Theorem C14_rne_nearest_unique : forall F X y1 y2, fmt_ok F ->
 Proof. exact rne_nearest_unique. Qed.
 Print Assumptions C14_rne_nearest_unique.
 
+(* the cast as it was on the pinned tree (before the repair ed48fe2) does NOT meet the specification: 0.75 -> 1 *)
+Theorem C14_float_to_int_refuted_prefix :
+  exists x r, 0 <= x < 2 ^ fbits F64 /\ cast_uint_from_float_prefix true F64 64 2 x = Ret r /\
+              uval 64 r <> float_to_U_spec F64 (Mod 64 2) x.
+Proof. exact float_to_int_refuted. Qed.
+Print Assumptions C14_float_to_int_refuted_prefix.
+
 (* the format side conditions hold for f32 and f64 *)
 Theorem C14_fmt_ok_f32 : fmt_ok F32.
 Proof. exact fmt_ok_F32. Qed.
@@ -81,3 +88,11 @@ Example C14_threshold_f32 : inf_threshold F32 = 2 ^ 128 - 2 ^ 103.
 Proof. vm_compute. reflexivity. Qed.
 Example C14_f_num_one : f_num F32 0x3f800000 = 2 ^ fmin F32 /\ fmin F32 = 149.
 Proof. vm_compute. split; reflexivity. Qed.
+
+(* the hypotheses of the theorems are satisfiable *)
+Example C14_hyps_sat : fmt_ok F32 /\ fmt_ok F64 /\ 0 < 8 /\ (0 < 4)%nat /\ wf 8 4 [1; 0; 0; 1] /\
+                       0 <= 0x3f400000 < 2 ^ fbits F32.
+Proof.
+  split; [exact fmt_ok_F32|]. split; [exact fmt_ok_F64|]. split; [lia|]. split; [lia|].
+  split; [apply wfb_wf; vm_compute; reflexivity | vm_compute; split; [discriminate | reflexivity]].
+Qed.
